@@ -8,7 +8,7 @@ ID = "C17"
 RULE = ("E-FULL: every day of the tier's year set (quick: 1900, 1999-2004, 2100, 2200; thorough: every day 1900-2200) at 3 "
         "instants x 7 units x floor/ceil/round/offset(k in {0,1,2,7,31,400}); every hour of 2000, 2021, 2100 (thorough: 10 years incl. 1900, 1969, 1970, 2038, 2200) for "
         "second/minute/hour; thorough: every k in 0..400 from each day of 12 years (1900 ... 2199). E-INPUT: range(t0,t1,dt) "
-        "for start instants around every month end/week boundary of 2019-2020 x 6 spans x dt 1..12, 13, 18, 25, 30, 36, 53, 61 x 7 units (for dt 1 and 5 also through the plural aliases d3_time['days'] ...); steps 100..3600 over four cycles of the step; floor/ceil/round/range on every day of one year under three process-wide settings (calendar.setfirstweekday, a 4-digit decimal context, DEBUG logging); thorough: three enumerations of more than 10^6 boundaries. Oracle R-CAL "
+        "for start instants around every month end/week boundary of 2019-2020 x 6 spans x dt 1..12, 13, 18, 25, 30, 36, 53, 61 x 7 units (for dt 1 and 5 also through the plural aliases d3_time['days'] ...); steps 100..3600 over four cycles of the step; floor/ceil/round/range on every day of one year under three process-wide settings (calendar.setfirstweekday, a 4-digit decimal context, DEBUG logging); enumerations of more than 10^5 seconds / minutes / hours with steps 7 and 12 (thorough: 1, 5, 7..12); thorough: three enumerations of more than 10^6 boundaries. Oracle R-CAL "
         "(datetime/timedelta/calendar). Non-trivial: the instant is not itself a boundary / the range is non-empty.")
 ASSUMPTIONS = ["for the week unit with dt>1 only numbering-agnostic periodicity inside a year is demanded (the statement does not fix a week numbering)",
                "process time zone is UTC here; C18 owns the zone dimension"]
@@ -67,6 +67,10 @@ def plan(tier, seed):
         shards.append({"kind": "bigstep", "unit": u})
     for k in AMBIENT:  # the same operations under process-wide settings an application may have chosen
         shards.append({"kind": "ambient", "setting": k, "year": 2024 if tier == "quick" else 2000 + seed % 30})
+    # enumerations of more than 10^5 units with steps that do and do not divide the unit's cycle (60 / 60 / 24)
+    for u, days in (("second", 2), ("minute", 80), ("hour", 4400)):
+        for dt in ((7, 12) if tier == "quick" else (1, 5, 7, 8, 9, 10, 11, 12)):
+            shards.append({"kind": "long", "unit": u, "days": days, "dt": dt})
     if tier == "thorough":  # one enumeration of more than a million boundaries per fine unit
         shards.append({"kind": "long", "unit": "second", "days": 13, "dt": 1})
         shards.append({"kind": "long", "unit": "second", "days": 25, "dt": 2})
